@@ -3,7 +3,7 @@
 From Coq Require Import List Bool.
 From Coq Require Import NArith Arith.
 From Carquet Require Import Base.Res Gen.Dispatch_gen Gen.Intrinsics_gen Simd.DispatchModel Simd.DispatchProofs.
-From Carquet Require Import Simd.Vec Simd.ScalarKernels Simd.SseKernels Simd.Avx2Kernels Simd.Avx512Kernels Simd.BssProofs Simd.SeqProofs Simd.MemProofs Simd.LevelProofs Simd.PackProofs.
+From Carquet Require Import Simd.Vec Simd.ScalarKernels Simd.SseKernels Simd.Avx2Kernels Simd.Avx512Kernels Simd.BssProofs Simd.SeqProofs Simd.MemProofs Simd.LevelProofs Simd.PackProofs Simd.PsumProofs.
 Import ListNotations.
 
 (** Dispatcher: for EVERY capability set (any list of features) and every slot of the dispatch table
@@ -204,3 +204,36 @@ Theorem avx512_pack_bools_kernel_eq_scalar : forall count inp out0,
   exists out, avx512_pack_bools count inp out0 = Ok out /\ scalar_pack_bools count inp out0 = Ok out.
 Proof. exact avx512_pack_bools_eq_scalar. Qed.
 Print Assumptions avx512_pack_bools_kernel_eq_scalar.
+
+(** prefix sums (in place; two's complement arithmetic wraps modulo 2^32 / 2^64 - what the compiled scalar code does;
+    signed overflow is undefined in ISO C) *)
+Theorem sse_prefix_sum_i32_kernel_eq_scalar : forall count buf init,
+  length buf = 4 * count -> bytes_ok buf ->
+  exists out, sse_prefix_sum_i32 count buf init = Ok out /\ scalar_prefix_sum 4 count buf init = Ok out.
+Proof. exact sse_prefix_sum_i32_eq_scalar. Qed.
+Print Assumptions sse_prefix_sum_i32_kernel_eq_scalar.
+Theorem sse_prefix_sum_i64_kernel_eq_scalar : forall count buf init,
+  length buf = 8 * count -> bytes_ok buf ->
+  exists out, sse_prefix_sum_i64 count buf init = Ok out /\ scalar_prefix_sum 8 count buf init = Ok out.
+Proof. exact sse_prefix_sum_i64_eq_scalar. Qed.
+Print Assumptions sse_prefix_sum_i64_kernel_eq_scalar.
+Theorem avx2_prefix_sum_i32_kernel_eq_scalar : forall count buf init,
+  length buf = 4 * count -> bytes_ok buf ->
+  exists out, avx2_prefix_sum_i32 count buf init = Ok out /\ scalar_prefix_sum 4 count buf init = Ok out.
+Proof. exact avx2_prefix_sum_i32_eq_scalar. Qed.
+Print Assumptions avx2_prefix_sum_i32_kernel_eq_scalar.
+Theorem avx2_prefix_sum_i64_kernel_eq_scalar : forall count buf init,
+  length buf = 8 * count -> bytes_ok buf ->
+  exists out, avx2_prefix_sum_i64 count buf init = Ok out /\ scalar_prefix_sum 8 count buf init = Ok out.
+Proof. exact avx2_prefix_sum_i64_eq_scalar. Qed.
+Print Assumptions avx2_prefix_sum_i64_kernel_eq_scalar.
+Theorem avx512_prefix_sum_i32_kernel_eq_scalar : forall count buf init,
+  length buf = 4 * count -> bytes_ok buf ->
+  exists out, avx512_prefix_sum_i32 count buf init = Ok out /\ scalar_prefix_sum 4 count buf init = Ok out.
+Proof. exact avx512_prefix_sum_i32_eq_scalar. Qed.
+Print Assumptions avx512_prefix_sum_i32_kernel_eq_scalar.
+Theorem avx512_prefix_sum_i64_kernel_eq_scalar : forall count buf init,
+  length buf = 8 * count -> bytes_ok buf ->
+  exists out, avx512_prefix_sum_i64 count buf init = Ok out /\ scalar_prefix_sum 8 count buf init = Ok out.
+Proof. exact avx512_prefix_sum_i64_eq_scalar. Qed.
+Print Assumptions avx512_prefix_sum_i64_kernel_eq_scalar.
